@@ -13,6 +13,7 @@ CONSTANTS
   Burst = 2
   StoreCap = 2
   EntryBurst = 0
+  BigQs = {}
   MaxOps = 2
   MaxPend = 1
   MaxAge = 2
@@ -24,8 +25,9 @@ CONSTANTS
   EchoCached = FALSE
   ReuseEvicted = FALSE
   SharedKey = TRUE
+  ChargeBeforeFit = FALSE
 SPECIFICATION Spec
 INVARIANTS TypeOK OneChargePerQuestion DropIsSilent ClientWithinBudget NoSharedBucket RememberedIsOwn ExemptNeverLimited
-  ReplyCookieIsOwn AnswerCarriesCookie BadCookieSound VerifiedIsFree HandoffOnlyInline
+  ReplyCookieIsOwn AnswerCarriesCookie BadCookieSound VerifiedIsFree HandoffOnlyInline SameOutcomeAcrossEntries
 PROPERTIES DropLeavesNoTrace EvictionOnlyResets BucketIsolation ExemptUntouched TokensNeverRefillWithoutTime
 CHECK_DEADLOCK FALSE
